@@ -12,7 +12,7 @@ import (
 func init() {
 	register(&propInfo{
 		ID:          "C04",
-		Explanation: "Path, origin and call-graph analysis of everything that can cause a handler execution: (R04.1) the client re-sends a request only on a path where the method's retry flag is known true, that flag is exactly `retry tag == \"true\"` (likewise notify), and the retry decision compares the wire error's code with the temporary-connection code; (R04.2) the request writer is only ever given the request just received from the request queue or a locally built id-less built-in notification; (R04.3) nothing reachable from the in-flight failer, the sink closer or the redial path writes a request (in-flight requests are failed, never re-queued); (R04.4) notifications: no id is minted on the notify branch, the accept arm never registers an id-less request, the server gives it a discarding writer and emits no success reply; (R04.5) each inbound frame is dispatched once, and each call is handed to the dispatcher exactly once, on its own goroutine; (R04.6) in the dispatcher the user call has a single site outside any loop and dominates the success reply; (R04.7) the HTTP transport uses a non-replayable request (POST, no idempotency-key header), so net/http never re-sends it by itself; (R04.8) frames are decoded into fresh memory (a recycled buffer would make one handler run with another call's params). (R04.9) every proxy field gets a call descriptor allocated for it. (R04.10) no rejection before the handler depends on the request's id; (R04.11) the HTTP exchange is performed inside the call.",
+		Explanation: "Path, origin and call-graph analysis of everything that can cause a handler execution: (R04.1) the client re-sends a request only on a path where the method's retry flag is known true, that flag is exactly `retry tag == \"true\"` (likewise notify), and the retry decision compares the wire error's code with the temporary-connection code; (R04.2) the request writer is only ever given the request just received from the request queue or a locally built id-less built-in notification; (R04.3) nothing reachable from the in-flight failer, the sink closer or the redial path writes a request (in-flight requests are failed, never re-queued); (R04.4) notifications: no id is minted on the notify branch, the accept arm never registers an id-less request, the server gives it a discarding writer and emits no success reply; (R04.5) each inbound frame is dispatched once, and each call is handed to the dispatcher exactly once, on its own goroutine; (R04.6) in the dispatcher the user call has a single site outside any loop and dominates the success reply; (R04.7) the HTTP transport uses a non-replayable request (POST, no idempotency-key header), so net/http never re-sends it by itself; (R04.8) frames are decoded into fresh memory (a recycled buffer would make one handler run with another call's params). (R04.9) every proxy field gets a call descriptor allocated for it. (R04.10) no rejection before the handler depends on the request's id; (R04.11) the HTTP exchange is performed inside the call. (R04.12) the transport function hands the call's request to the connection loop once. (R04.13) the HTTP transport performs one exchange per call.",
 		NotDecided:  "Executions counted under real faults and schedules; behaviour of intermediaries; net/http internals beyond its documented replay rule.",
 		Assumptions: []string{"net/http replays a request on a dropped keep-alive connection only if it is idempotent (GET/HEAD/OPTIONS/TRACE) or carries an (X-)Idempotency-Key header"},
 		Run:         runC04,
@@ -149,6 +149,8 @@ func runC04(c *Ctx) {
 			c.ok("R04.11", "HTTP exchange", "-", "no (*http.Client).Do in the library package")
 		}
 	}
+	c.ruleOpt("R04.13", "the HTTP transport performs one exchange per call: after (*http.Client).Do no second Do is reachable inside the transport function (re-sending is decided only by the tagged retry loop)")
+	c.httpExchangeOnce("R04.13")
 	c.rule("R04.12", "the transport function hands the call's request to the connection loop once (re-sending is decided only by the tagged retry loop)")
 	c.enqueuedOnce("R04.12")
 	c.rule("R04.9", "every proxy field gets a call descriptor of its own (its retry / notify flags are not shared with other fields)")
@@ -866,5 +868,59 @@ func (c *Ctx) enqueuedOnce(rule string) {
 	}
 	if n == 0 {
 		c.und(rule, "hand-over of requests", "-", "no function enqueueing its request parameter found")
+	}
+}
+
+// httpExchangeOnce: R04.13. Inside one invocation of the HTTP transport function (the function that
+// takes the client's request record and has (*http.Client).Do in its cone) the exchange is performed
+// at most once: net/http reports io.EOF / ECONNRESET also when the server had already executed the
+// request, so a second POST "on a stale connection" runs an untagged call twice.
+func (c *Ctx) httpExchangeOnce(rule string) {
+	p, r := c.P, c.R
+	if r.TCreq == nil {
+		return
+	}
+	isDo := func(x ssa.Instruction) bool {
+		ci, ok := x.(ssa.CallInstruction)
+		return ok && calleeName(ci) == "(*net/http.Client).Do"
+	}
+	for _, fn := range p.Funcs {
+		if pkgOf(fn) != p.Root.Pkg {
+			continue
+		}
+		takesReq := false
+		for _, prm := range fn.Params {
+			if prm.Type() == types.Type(r.TCreq) {
+				takesReq = true
+			}
+		}
+		if !takesReq {
+			continue
+		}
+		var dos []ssa.Instruction
+		p.coneInstrs(fn, func(in ssa.Instruction) {
+			if isDo(in) {
+				dos = append(dos, in)
+			}
+		})
+		if len(dos) == 0 {
+			continue
+		}
+		isExit := func(x ssa.Instruction) bool {
+			_, ok := x.(*ssa.Return)
+			return ok && x.Parent() == fn
+		}
+		construct := fmt.Sprintf("%s: one HTTP exchange per call", fname(fn))
+		var again ssa.Instruction
+		for _, d := range dos {
+			if x := reachFromUp(d, isDo, isExit); x != nil {
+				again = x
+			}
+		}
+		if again != nil {
+			c.bad(rule, construct, c.ipos(again), "a second (*http.Client).Do is reachable after the first inside the transport function: the request is posted again on the client's own initiative (e.g. after an EOF on a kept-alive connection) — the server may already have executed it, so an untagged call runs twice")
+		} else {
+			c.ok(rule, construct, c.ipos(dos[0]), "no second Do reachable before the transport function returns")
+		}
 	}
 }
